@@ -22,6 +22,7 @@ RULE = ('cases = an ordered pair of segments (all 16 type pairs; arcs rotated or
         '{constructed crossing, tangential touch, end-point touch, random (disjoint or crossing, overlapping boxes), near-miss with gap '
         '1e-3..1e-9 of the size, axis-aligned straight "curves"}, or a pair of paths of 2-5 segments; every returned list is judged; '
         'distinct by the two specs; non-trivial if an oracle verdict was reached')
+RULE += '; re-query after a same-count edit of a path; axis-parallel lines through unrotated ellipses; figures 1e4..1e6 sizes away from the origin'
 ASSUMPTIONS = ['the segments\' own point() is the reference (C03/C04)',
                'for two arcs that are not both circular and unrotated an exception is tolerated (documented as not fully implemented)',
                'swap symmetry compares crossings = clusters of reported pairs whose points lie within twice the tolerance; parameters are compared '
